@@ -52,7 +52,7 @@ def rfloat(rng):
 
 
 def cases(rng, tier):
-    n = 500 if tier == 'quick' else 30000
+    n = 500 if tier == 'quick' else 10000
     M = lambda op: raw(f"(ㅂ ㅂㄷ {op} ㅂㅎㄹ)")
     for _ in range(n):
         x, y = rint(rng), rint(rng)
